@@ -53,7 +53,8 @@ RULE = ('cases = (package of 2-6 models in per-file or cube format, 6-20 wavelen
         'of the generated inputs')
 REQUIRED_BRANCHES = ['per_file', 'cube', 'dist_independent', 'dist_dependent', 'table_permuted', 'flag1', 'flag4',
                      'staged_convolution', 'staged_table_not_alphabetical', 'staged_first_stage_checked',
-                     'apertures_tabulated_in_AU', 'apertures_tabulated_other_unit', 'own_grids_same_length', 'own_grids_mixed_lengths', 'other_model_zero_flux', 'other_model_zero_flux_indep', 'distance_unit_kpc', 'distance_unit_other',
+                     'apertures_tabulated_in_AU', 'apertures_tabulated_other_unit', 'cube_fitted_at_wavelengths_table_permuted',
+                     'table_reordered_after_convolution', 'own_grids_same_length', 'own_grids_mixed_lengths', 'other_model_zero_flux', 'other_model_zero_flux_indep', 'distance_unit_kpc', 'distance_unit_other',
                      'dist_dependent_unit_not_kpc', 'av0_at_lower_bound', 'av0_at_upper_bound', 'av_range_from_zero',
                      'av_range_negative', 'av_range_positive_start', 'lower_limit_band', 'upper_limit_band', 'plot_only_band',
                      'output_N_all', 'output_format_other', 'select_N1', 'select_format_other', 'listing_several_rows', 'two_sources', 'wav_increasing', 'wav_decreasing', 'unused_band']
@@ -128,6 +129,22 @@ def gen_case(rng, directed=None):
         if rng.random() < 0.5:
             fw, resp = fw[::-1], resp[::-1]
         filters.append(dict(name='F%d' % len(filters), cen=cen, wav=fw, resp=resp))
+    # cube packages may instead be fitted directly at tabulated wavelengths (monochromatic filters given as
+    # wavelength quantities, no convolution step): nothing then ties the order of parameters.fits to the cube
+    mono = False
+    if fmt == 'cube' and directed.get('mono', rng.random() < 0.3):
+        inner = [w for w in wav[1:-1]]
+        rng.shuffle(inner)
+        picked = []
+        for w in inner:
+            if all(abs(math.log(w / c)) >= 0.25 for c in picked):
+                picked.append(w)
+            if len(picked) == nf:
+                break
+        if len(picked) >= 3:
+            mono = True
+            nf = len(picked)
+            filters = [dict(name='W%d' % j, cen=w, wav=[w], resp=[1.]) for j, w in enumerate(picked)]
     theta = [nice(rng, 1., 10., 2) for _ in range(nf)]
     # distance grid and aperture table
     dunit = directed.get('dunit', rng.choice(['kpc', 'kpc', 'pc', 'Mpc', 'cm', 'lyr']))
@@ -183,6 +200,14 @@ def gen_case(rng, directed=None):
         cols[PAR_NAMES[c]] = vals                 # indexed like `names`
     table_order = list(range(nm))
     stems = {}
+    retable = None
+    if mono:
+        while table_order == list(range(nm)):
+            rng.shuffle(table_order)
+    if fmt == 'per_file' and directed.get('retable', rng.random() < 0.3):
+        # the parameter table is rewritten in another row order after the last convolution, before the final fit
+        retable = list(range(nm))
+        rng.shuffle(retable)
     if fmt == 'per_file':
         while table_order == list(range(nm)) or directed.get('identity_table'):
             rng.shuffle(table_order)
@@ -263,7 +288,9 @@ def gen_case(rng, directed=None):
     staged = directed.get('staged', rng.random() < 0.35)
     n_first = rng.randint(min(3, nf - 1), nf - 1) if staged else nf     # >= 3 bands in the first stage when possible
     ap_unit = directed.get('ap_unit', rng.choice(['AU', 'AU', 'pc', 'cm'])) if dep else 'AU'
-    return dict(fmt=fmt, dep=dep, ap_unit=ap_unit, names=names, wav=wav, wavs=(wavs if hetero != 'none' else None), zero=zero,
+    if mono:
+        staged, n_first, hetero = False, nf, 'none'
+    return dict(fmt=fmt, dep=dep, mono=mono, retable=retable, ap_unit=ap_unit, names=names, wav=wav, wavs=(wavs if hetero != 'none' else None), zero=zero,
                 aps=aps, flux=flux, filters=filters, theta=theta,
                 drange=drange_u, dunit=dunit, n_first=n_first, step=step, cols=cols, table_order=table_order, stems=stems,
                 tab_w=tw, tab_chi=chi, av=[av_lo, av_hi], sources=sources,
@@ -305,7 +332,14 @@ DIRECTED = [
     dict(fmt='per_file', dep=True, flags='flag1', nsrc=1, ap_unit='pc', special=[], av_lo=0., select_format=['N', 1]),
     dict(fmt='cube', dep=True, flags='flag4', nsrc=2, ap_unit='cm', special=[], av_lo=0., select_format=['N', 1]),
     dict(fmt='cube', dep=True, flags='mixed', nsrc=1, ap_unit='pc', staged=True, nf=5, special=[], av_lo=0., select_format=['N', 1]),
+    dict(fmt='per_file', dep=False, flags='flag1', nsrc=1, retable=True, staged=False, special=[], av_lo=0., select_format=['N', 1]),
+    dict(fmt='per_file', dep=True, flags='flag4', nsrc=2, retable=True, staged=True, nf=5, special=[], av_lo=0., select_format=['A', 0]),
+    dict(fmt='cube', dep=False, flags='flag4', nsrc=1, mono=True, special=[], av_lo=0., select_format=['N', 1]),
+    dict(fmt='cube', dep=True, flags='mixed', nsrc=2, mono=True, ap_unit='pc', special=[], av_lo=0., select_format=['N', 2]),
 ]
+for _d in DIRECTED[:28]:
+    _d.setdefault('retable', False)
+    _d.setdefault('mono', False)
 for _d in DIRECTED[:20]:
     _d.setdefault('special', [])
     _d.setdefault('av_lo', 0.)
@@ -355,7 +389,8 @@ def build_package(case, d):
         if aps_q is not None:
             cube.apertures = aps_q
         cube.write(os.path.join(d, 'flux.fits'), overwrite=True)
-        pk.write_parameters(d, list(names), {c: list(case['cols'][c]) for c in case['cols']})
+        order = case['table_order'] if case.get('mono') else list(range(nm))      # cube convolution insists on cube order
+        pk.write_parameters(d, [names[i] for i in order], {c: [case['cols'][c][i] for i in order] for c in case['cols']})
     return params_by_name
 
 
@@ -463,11 +498,19 @@ def run_pipeline(case, d):
     stages = [n_first, nf] if n_first < nf else [nf]
     done = 0
     out = []
+    if case.get('mono'):
+        stages = [nf]
     for k, upto in enumerate(stages):
-        new = [pk.make_filter(f['name'], f['cen'], f['wav'], f['resp']) for f in case['filters'][done:upto]]
-        with common.quiet():
-            convolve_model_dir(d, new, memmap=False)
+        if not case.get('mono'):
+            new = [pk.make_filter(f['name'], f['cen'], f['wav'], f['resp']) for f in case['filters'][done:upto]]
+            with common.quiet():
+                convolve_model_dir(d, new, memmap=False)
         done = upto
+        if upto == nf and case.get('retable'):
+            # every convolved file exists; the user re-orders parameters.fits (lookups are by name everywhere)
+            names = case['names']
+            pk.write_parameters(d, [names[i] for i in case['retable']],
+                                {c: [case['cols'][c][i] for i in case['retable']] for c in case['cols']})
         sc = stage_case(case, upto)
         out.append((sc, run_stage(sc, d, params_by_name, k)))
     return out
@@ -479,11 +522,16 @@ def run_stage(case, d, params_by_name, k):
     from sedfitter import fit, write_parameters
     from sedfitter.convolved_fluxes import ConvolvedFluxes
     from sedfitter.fit_info import FitInfoFile
-    filt_objs = [pk.make_filter(f['name'], f['cen'], f['wav'], f['resp']) for f in case['filters']]
-    own = own_convolved(case, filt_objs)
     names = case['names']
-    file_flux = np.zeros_like(own)
-    for j, f in enumerate(case['filters']):
+    if case.get('mono'):
+        # fitted at tabulated wavelengths: the model flux is the cube cell itself
+        own = np.array([[[case['flux'][i][a][case['wav'].index(f['cen'])] for a in range(len(case['flux'][i]))]
+                         for f in case['filters']] for i in range(len(names))], dtype=float)
+    else:
+        filt_objs = [pk.make_filter(f['name'], f['cen'], f['wav'], f['resp']) for f in case['filters']]
+        own = own_convolved(case, filt_objs)
+    file_flux = own.copy() if case.get('mono') else np.zeros_like(own)
+    for j, f in enumerate([] if case.get('mono') else case['filters']):
         c = ConvolvedFluxes.read(os.path.join(d, 'convolved', f['name'] + '.fits'))
         labels = [str(x).strip() for x in c.model_names]
         fl = np.asarray(c.flux.to(u.mJy).value, dtype=float)
@@ -502,7 +550,8 @@ def run_stage(case, d, params_by_name, k):
     out = os.path.join(d, 'fit_output_%d.fitinfo' % k)
     txt = os.path.join(d, 'parameters_%d.txt' % k)
     with common.quiet():
-        fit(datafile, [f['name'] for f in case['filters']], np.array(case['theta']) * u.arcsec, d, out,
+        fit(datafile, ([f['cen'] * u.micron for f in case['filters']] if case.get('mono') else [f['name'] for f in case['filters']]),
+            np.array(case['theta']) * u.arcsec, d, out,
             n_data_min=case['n_data_min'], extinction_law=ext, av_range=tuple(case['av']),
             distance_range=drange_quantity(case), output_format=tuple(case.get('output_format') or ('N', len(names))))
         write_parameters(out, txt, select_format=tuple(case.get('select_format') or ('N', 1)))
@@ -835,6 +884,10 @@ def run_case(case):
             branches.add('select_N1' if sf == ['N', 1] else 'select_format_other')
             if any(len(b[3]) > 1 for b in parse_text(run[-1][1]['text'])[1]):
                 branches.add('listing_several_rows')
+            if case.get('mono'):
+                branches.add('cube_fitted_at_wavelengths_table_permuted')
+            if case.get('retable'):
+                branches.add('table_reordered_after_convolution')
             if case['dep']:
                 branches.add('apertures_tabulated_in_AU' if (case.get('ap_unit') or 'AU') == 'AU' else 'apertures_tabulated_other_unit')
             if len(run) > 1:
